@@ -442,7 +442,7 @@ def rule_H1(prog, fixture=False):
             deps = set()
             for (_, d) in ws:
                 deps |= d
-            dep_self = any(a[0] == "this" and a[1] == fld and a[2] == "content" for a in deps)
+            dep_self = any(a[0] == "this" and ((a[1] == fld and a[2] == "content") or a[1] == "*") for a in deps)
             dep_in = any(a[0] == "parm" and a[1] in in_names and a[2] == "content" for a in deps)
             extra = {"props": h1_props}
             if dep_self and dep_in:
